@@ -15,27 +15,34 @@ from .c15 import _flags, _mk_filter
 from .flow import IntegrateFacts
 
 ID = 'C03'
-TECHNIQUE = ('abstract evaluation of Calculator.fire (default step), of the interpolation branch of should_record '
-             '(rational identity: the recorded x is the record distance) and of should_record on the initial state; '
-             'store inventory of the record distance; dominance of the recording call over the state updates')
+TECHNIQUE = ('abstract evaluation of Calculator.fire (default step), of the interpolation branch of '
+             'should_record (rational identity: the recorded x is the record distance) and of should_record '
+             'on the initial state; a value-class lattice over reaching definitions for every store of the '
+             'record distance (zero / the step / distance + whole steps / integer / anything); dominance of '
+             'the recording call over the state updates')
 DECIDED = [
-    'R1 with no step given the step handed to the solver is range / 10 (same magnitude scale); a given step is '
-    'coerced with the distance slot; range and step reach the solver in the slots of the same name',
-    'R2 a range row lies exactly on its multiple: the interpolated position has x = next_record_distance as a '
-    'rational identity; the record distance starts at 0 and only ever advances by range_step; the row is flagged RANGE',
-    'R3 the muzzle row is the initial state: should_record runs before any update of time, position or velocity in '
-    'an iteration, and on the initial state (x = 0, t = 0) it returns exactly (time, position, velocity, mach) given',
-    'R4 a time row is due exactly when time > time of the last record + time step, is flagged RANGE, and the test runs '
-    'whenever no range row is due',
-    'R5 no row is created outside the recording call, the terminal row of a range error and the after-loop fallback, '
-    'whose guard is false (evaluated) as soon as the card has two rows: nothing appends the final integration state, '
-    'which lies on no multiple of the step, to an ordinary card',
-    'R6 the loop runs while x <= range + m with m (read from the condition and the definitions reaching it, evaluated '
-    'at sample launch / look angles) at least the integration step whenever the recording step is: the sample that '
-    'reaches the requested range is still examined',
+    'R1 with no step given the step handed to the solver is range / 10 (same magnitude scale); a given step '
+    'is coerced with the distance slot; range and step reach the solver in the slots of the same name',
+    'R2 a range row lies exactly on its multiple: the interpolated position has x = next_record_distance as a'
+    ' rational identity; the record distance is 0 at construction and every other store, through whatever '
+    'locals, keeps it a multiple of range_step (induction over all stores); the row is flagged RANGE',
+    'R3 the muzzle row is the initial state: should_record runs before any update of time, position or '
+    'velocity in an iteration, and on the initial state (x = 0, t = 0) it returns exactly (time, position, '
+    'velocity, mach) given',
+    'R4 a time row is due exactly when time > time of the last record + time step, is flagged RANGE, and the '
+    'test runs whenever no range row is due',
+    'R5 no row is created outside the recording call, rows that leave only inside an exception (the card of '
+    'an abnormal stop) and the after-loop fallback, whose guard is false (evaluated) as soon as the card has '
+    'two rows: nothing appends the final integration state, which lies on no multiple of the step, to an '
+    'ordinary card',
+    'R6 the loop runs while x <= range + m with m (read from the condition and the definitions reaching it, '
+    'evaluated at sample launch / look angles) at least the integration step whenever the recording step is: '
+    'the sample that reaches the requested range is still examined',
 ]
-NOT_DECIDED = ['the number of rows, one row per multiple, strict monotonicity, the behaviour of the loop bound under '
-               'head / tail wind, the time-step spacing bound: all depend on the runtime sequence of integration points']
+NOT_DECIDED = [
+    'the number of rows, one row per multiple, strict monotonicity, the behaviour of the loop bound under '
+    'head / tail wind, the time-step spacing bound: all depend on the runtime sequence of integration points',
+]
 
 
 def run(prog: Program, rep, thorough: bool) -> None:
